@@ -68,6 +68,14 @@ class EECC(Network):
         for i, c in enumerate(C):
             C[i] = sorted(c)
 
+        # sub-cliques taken from an unsorted maximal clique only become equal
+        # once sorted, so they can survive the de-duplication above
+        unique = []
+        for c in C:
+            if c not in unique:
+                unique.append(c)
+        C = unique
+
         return sorted(
             C, key=lambda x: (-len(x), x[0], x[1]) if len(x) > 1 else (-len(x), x[0], 0)
         )
